@@ -89,22 +89,28 @@ Check c06_session_commands : forall ops t c' started outs,
     Forall (fun p => exists body, line p = body ++ [13; 10] /\ ~ In 13 body /\ ~ In 10 body) issued.
 Print Assumptions c06_session_commands.
 
-(* the same with nothing assumed about the arguments when every command comes out of a builder chain of the
-   regenerated typestate tables *)
-Theorem c06_built_session : forall ops t c' started outs,
+(* the same with nothing assumed about the arguments when every command comes out of a builder chain of typestate tables
+   whose literal pieces and keywords hold no CR / LF -- which the tables regenerated from the source do
+   (c06_regenerated_tables_ok; C14 shows them equal to the reference tables the example below runs on) *)
+Theorem c06_regenerated_tables_ok : machine_ok gen_machine = true.
+Proof. exact gen_machine_ok. Qed.
+Check c06_regenerated_tables_ok : machine_ok gen_machine = true.
+Print Assumptions c06_regenerated_tables_ok.
+
+Theorem c06_built_session : forall m, machine_ok m = true -> forall ops t c' started outs,
   session ops (client_init t) = (c', started, outs) ->
   N.of_nat (length ops) <= 10000 ->
-  Forall built (map fst ops) ->
+  Forall (built m) (map fst ops) ->
   exists issued,
     io_wire (c_io c') ++ c_wbuf c' = io_wire t ++ List.concat (map line issued) /\
     sub issued (issue 0 (map fst ops)) /\
     NoDup (map fst issued) /\
     Forall (fun p => exists body, line p = body ++ [13; 10] /\ ~ In 13 body /\ ~ In 10 body) issued.
 Proof. exact built_session_lemma. Qed.
-Check c06_built_session : forall ops t c' started outs,
+Check c06_built_session : forall m, machine_ok m = true -> forall ops t c' started outs,
   session ops (client_init t) = (c', started, outs) ->
   N.of_nat (length ops) <= 10000 ->
-  Forall built (map fst ops) ->
+  Forall (built m) (map fst ops) ->
   exists issued,
     io_wire (c_io c') ++ c_wbuf c' = io_wire t ++ List.concat (map line issued) /\
     sub issued (issue 0 (map fst ops)) /\
@@ -115,8 +121,8 @@ Print Assumptions c06_built_session.
 Local Open Scope string_scope.
 Local Open Scope list_scope.
 Theorem c06_built_session_example :
-  let a1 := run_chain gen_machine "login" [AStr (bs "u"); AStr (bs "p""\")] [] in
-  let a2 := run_chain gen_machine "uid_fetch" []
+  let a1 := run_chain ref_machine "login" [AStr (bs "u"); AStr (bs "p""\")] [] in
+  let a2 := run_chain ref_machine "uid_fetch" []
               [("range", [ARange 2 4]); ("num", [ANum 7]); ("attr", [AKw "Attribute::Flags"]); ("attr", [AKw "Attribute::Uid"]);
                ("changed_since", [ANum 9])] in
   exists x1 n1 x2 n2, a1 = Some (x1, n1) /\ a2 = Some (x2, n2) /\
@@ -128,8 +134,8 @@ Theorem c06_built_session_example :
     end.
 Proof. exact built_session_example. Qed.
 Check c06_built_session_example :
-  let a1 := run_chain gen_machine "login" [AStr (bs "u"); AStr (bs "p""\")] [] in
-  let a2 := run_chain gen_machine "uid_fetch" []
+  let a1 := run_chain ref_machine "login" [AStr (bs "u"); AStr (bs "p""\")] [] in
+  let a2 := run_chain ref_machine "uid_fetch" []
               [("range", [ARange 2 4]); ("num", [ANum 7]); ("attr", [AKw "Attribute::Flags"]); ("attr", [AKw "Attribute::Uid"]);
                ("changed_since", [ANum 9])] in
   exists x1 n1 x2 n2, a1 = Some (x1, n1) /\ a2 = Some (x2, n2) /\
